@@ -41,11 +41,19 @@ CONSTANTS Actions,          \* action type names
           AnnounceDelay, AnnounceActive, ProtocolBlocks, CoolDown,  \* signing_loop.go
           AttemptMaxBlocks, \* signingAttemptMaximumBlocks() as returned by the code
           BlockSeconds,     \* nominal host chain block time (12 s)
-          Starts            \* set of action start blocks to explore
+          Starts,           \* set of action start blocks to explore
+          Interlude,        \* signingBatchInterludeBlocks: message k+1 starts Interlude after message k ended
+          MaxMessages,      \* messages of a signing batch explored
+          LoopBoundToCaller \* TRUE: the retry loop's context derives from the caller's signing
+                            \* context (signing.go: withCancelOnBlock(ctx, loopTimeoutBlock));
+                            \* FALSE: hazard variant, the loop is bounded by its own timeout only
 
-VARIABLES act, start, phase, now, attempt
+VARIABLES act, start, phase, now, attempt,
+          msg,      \* index of the message of the batch being signed
+          mstart,   \* start block handed to signingExecutor.sign for that message
+          lastAnn   \* block of the latest readiness announcement (attempt start)
 
-vars == <<act, start, phase, now, attempt>>
+vars == <<act, start, phase, now, attempt, msg, mstart, lastAnn>>
 
 Expiry(a, s)          == s + Validity[a]
 SigningStart(a, s)    == s + StartOffset[a]
@@ -58,52 +66,84 @@ PostBlocks(a)         == CeilDiv(BroadcastSeconds[a], BlockSeconds)
 Init ==
     /\ act \in Actions /\ start \in Starts
     /\ phase = "proposed" /\ now = start /\ attempt = 0
+    /\ msg = 0 /\ mstart = 0 /\ lastAnn = 0
+
+Deadline == SigningDeadline(act, start)
+
+(* signing_loop.go: attempt k of a message whose loop starts at ms is       *)
+(* announced at ms + (k-1) * AttemptMaxBlocks + AnnounceDelay               *)
+MAnnStart(ms, k) == ms + (k - 1) * AttemptMaxBlocks + AnnounceDelay
+(* signing.go: loopTimeoutBlock *)
+MLoopEnd(ms) == ms + LoopBlocks
+(* the block at which the loop context of the message ends: its own timeout *)
+(* or, if the loop is bound to the caller's context, the signing deadline   *)
+LoopLimit(ms) == IF LoopBoundToCaller /\ Deadline < MLoopEnd(ms) THEN Deadline ELSE MLoopEnd(ms)
+GiveUpPhase(ms) == IF LoopBoundToCaller /\ Deadline < MLoopEnd(ms) THEN "expired" ELSE "failed"
+
+(* the loop of message ms proceeds to attempt k: it waits for the           *)
+(* announcement start block; if its context ends first, sign returns        *)
+Proceed(ms, k) ==
+    IF MAnnStart(ms, k) <= LoopLimit(ms)
+       THEN /\ attempt' = k /\ now' = MAnnStart(ms, k) /\ lastAnn' = MAnnStart(ms, k)
+            /\ phase' = "signing"
+       ELSE /\ now' = LoopLimit(ms) /\ phase' = GiveUpPhase(ms)
+            /\ UNCHANGED <<attempt, lastAnn>>
 
 (* execute reaches signTransaction / signingExecutor.sign: the signing     *)
 (* context is armed and the executor is given its start block              *)
 BeginSigning ==
     /\ phase = "proposed"
-    /\ phase' = "signing" /\ attempt' = 1
-    /\ now' = SigningStart(act, start)
+    /\ msg' = 1 /\ mstart' = SigningStart(act, start)
+    /\ Proceed(SigningStart(act, start), 1)
     /\ UNCHANGED <<act, start>>
 
 (* signingRetryLoop: attempt `attempt` fails (announcement failed, members  *)
 (* not ready, protocol error or done check timed out); the next attempt     *)
-(* starts AttemptMaxBlocks later.  If that is past the deadline the signing *)
-(* context is cancelled first.                                              *)
+(* starts AttemptMaxBlocks later unless the loop's context ends first       *)
 AttemptFails ==
     /\ phase = "signing" /\ attempt < AttemptsLimit
-    /\ attempt' = attempt + 1
-    /\ now' = AttemptStart(act, start, attempt + 1)
-    /\ phase' = IF now' > SigningDeadline(act, start) THEN "cut-short" ELSE "signing"
-    /\ UNCHANGED <<act, start>>
+    /\ Proceed(mstart, attempt + 1)
+    /\ UNCHANGED <<act, start, msg, mstart>>
 
-(* the last attempt of the loop fails: sign returns an error at the loop    *)
-(* timeout block                                                            *)
+(* the last attempt of the loop fails: the loop waits for an attempt that   *)
+(* never starts; sign returns an error when the loop context ends           *)
 LoopExhausted ==
     /\ phase = "signing" /\ attempt = AttemptsLimit
-    /\ now' = SigningStart(act, start) + LoopBlocks
-    /\ phase' = IF now' > SigningDeadline(act, start) THEN "cut-short" ELSE "failed"
-    /\ UNCHANGED <<act, start, attempt>>
+    /\ Proceed(mstart, attempt + 1)
+    /\ UNCHANGED <<act, start, msg, mstart>>
 
-(* the attempt succeeds; the latest block at which members agree on the     *)
-(* signature is the attempt's timeout block                                 *)
+(* the attempt succeeds -- unless the loop's context ends first; the latest *)
+(* block at which members agree on the signature is the attempt's timeout   *)
+(* block                                                                    *)
 AttemptSucceeds ==
     /\ phase = "signing"
-    /\ \E endOffset \in {AnnounceDelay + AnnounceActive + 1,
-                         AnnounceDelay + AnnounceActive + ProtocolBlocks} :
-          now' = AttemptStart(act, start, attempt) + endOffset
-    /\ phase' = IF now' > SigningDeadline(act, start) THEN "cut-short" ELSE "signed"
-    /\ UNCHANGED <<act, start, attempt>>
+    /\ \E endOffset \in {AnnounceActive + 1, AnnounceActive + ProtocolBlocks} :
+          LET e == lastAnn + endOffset IN
+          IF e <= LoopLimit(mstart)
+             THEN now' = e /\ phase' = "msg-signed"
+             ELSE now' = LoopLimit(mstart) /\ phase' = GiveUpPhase(mstart)
+    /\ UNCHANGED <<act, start, attempt, msg, mstart, lastAnn>>
 
-(* signing may also complete as late as the deadline itself (several       *)
-(* messages signed one after another in a batch)                           *)
-SignedAtDeadline ==
-    /\ phase = "signing"
-    /\ now' = SigningDeadline(act, start)
-    /\ now' >= now
+(* signBatch: the next message is signed starting Interlude blocks after    *)
+(* the previous one ended                                                   *)
+NextMessage ==
+    /\ phase = "msg-signed" /\ msg < MaxMessages
+    /\ msg' = msg + 1 /\ mstart' = now + Interlude
+    /\ Proceed(now + Interlude, 1)
+    /\ UNCHANGED <<act, start>>
+
+(* the batch is complete *)
+BatchSigned ==
+    /\ phase = "msg-signed"
     /\ phase' = "signed"
-    /\ UNCHANGED <<act, start, attempt>>
+    /\ UNCHANGED <<act, start, now, attempt, msg, mstart, lastAnn>>
+
+(* a long batch may complete as late as the deadline itself *)
+SignedAtDeadline ==
+    /\ phase = "msg-signed"
+    /\ now' = Deadline /\ now' >= now
+    /\ phase' = "signed"
+    /\ UNCHANGED <<act, start, attempt, msg, mstart, lastAnn>>
 
 (* post-signing step, worst case *)
 PostSigning ==
@@ -113,9 +153,10 @@ PostSigning ==
                  THEN now + PostBlocks(act)
                  ELSE IF now > Expiry(act, start) - ClaimEndMargin THEN now
                       ELSE Expiry(act, start) - ClaimEndMargin
-    /\ UNCHANGED <<act, start, attempt>>
+    /\ UNCHANGED <<act, start, attempt, msg, mstart, lastAnn>>
 
-Next == BeginSigning \/ AttemptFails \/ LoopExhausted \/ AttemptSucceeds \/ SignedAtDeadline \/ PostSigning
+Next == BeginSigning \/ AttemptFails \/ LoopExhausted \/ AttemptSucceeds \/ NextMessage \/ BatchSigned
+        \/ SignedAtDeadline \/ PostSigning
 
 Spec == Init /\ [][Next]_vars
 
@@ -124,8 +165,9 @@ Spec == Init /\ [][Next]_vars
 
 TypeOK ==
     /\ act \in Actions /\ start \in Starts
-    /\ phase \in {"proposed", "signing", "signed", "failed", "cut-short", "finished"}
+    /\ phase \in {"proposed", "signing", "msg-signed", "signed", "failed", "expired", "finished"}
     /\ attempt \in 0..AttemptsLimit
+    /\ msg \in 0..MaxMessages
 
 (* the code computes expiry - margin on unsigned integers *)
 NoUnderflow == Expiry(act, start) >= Margin[act] /\ Expiry(act, start) >= ClaimEndMargin
@@ -139,13 +181,23 @@ SigningStartsAfterStart ==
 SigningEndsBeforeMargin ==
     /\ SigningDeadline(act, start) + Margin[act] <= Expiry(act, start)
     /\ Margin[act] > 0
-    /\ (phase \in {"signed"} => now + Margin[act] <= Expiry(act, start))
+    /\ (phase \in {"signed", "msg-signed"} => now + Margin[act] <= Expiry(act, start))
 
 (* ... and is long enough for one complete retry loop of a single message: *)
 (* no attempt of the loop is cut short by the signing deadline             *)
 LoopFits ==
     /\ SigningDeadline(act, start) - SigningStart(act, start) >= LoopBlocks
-    /\ phase # "cut-short"
+    /\ (msg = 1 => phase # "expired")
+
+(* once the signing deadline context is cancelled no attempt is started or  *)
+(* announced any more -- for every message of a batch, including a later    *)
+(* message that starts less than one loop before the deadline               *)
+NoAnnouncementAfterDeadline == lastAnn <= SigningDeadline(act, start)
+
+(* ... and sign / signBatch has returned: at the deadline at the latest     *)
+SignReturnsByDeadline ==
+    /\ (phase \in {"expired", "failed", "msg-signed", "signed"} => now <= SigningDeadline(act, start))
+    /\ (phase = "expired" => now = SigningDeadline(act, start))
 
 (* the attempt windows of the loop really are AttemptMaxBlocks long *)
 AttemptWindow ==
